@@ -134,7 +134,7 @@ def run(ctx, events=None):
         ok = 'error' not in r and not r.get('reproduced')
         ctx.bounded.append({'what': 'CPython cross-check: every cell x role x ARTIM x primitive kind executed on the '
                                     'real StateMachine with a fake socket (engine soundness guard)',
-                            'bound': '2444 concrete cell executions (one concrete primitive per kind)',
+                            'bound': '4888 concrete cell executions (one concrete primitive per kind, with and without an unread earlier indication; bytes of a further PDU buffered)',
                             'evaluations': r.get('evaluations', 0), 'ok': ok,
                             'failures': r.get('failures', [])[:5]})
         ctx.native_failures = r.get('failures', []) if 'error' not in r else [r]
@@ -188,6 +188,16 @@ def one_cell(ctx, it, T, p, evt, sta, role, timer_running, kind, cell, label, st
     pre_timer = timer.fields['_start_time']
     pre_state = sm.fields['current_state']
     pre_sock = provider.fields['dul_socket']
+    # what else the provider holds is arbitrary: bytes of further PDUs already received, and possibly an earlier
+    # indication the user has not read yet -- an action neither depends on them nor touches them (frame)
+    pre_buffer = p.fresh_bytes('received_but_not_yet_framed')
+    provider.fields['raw_pdu'] = pre_buffer
+    unread = Opaque('earlier indication not yet read by the user')
+    user_q = provider.fields['to_service_user'].fields['items'].items
+    del user_q[:]
+    if p.choose([True, True], 'an earlier indication is still unread'):
+        user_q.append(unread)
+    pre_unread = list(user_q)
     del p.trace[:]
     p.ghost['pure_calls'] = []
     action = it.getattr(sm, 'action')
@@ -217,6 +227,12 @@ def one_cell(ctx, it, T, p, evt, sta, role, timer_running, kind, cell, label, st
             return pre_timer is None and cur_timer is None
         return int_term(pre_timer) == int_term(cur_timer)
 
+    if raised is None or cell is None:
+        after_buffer = provider.fields.get('raw_pdu')
+        ob('frame:receive-buffer-untouched', after_buffer is pre_buffer or
+           ops.values_equal(it, after_buffer, pre_buffer) is True)
+        ob('frame:unread-indications-kept-in-order', user_q[:len(pre_unread)] == pre_unread and
+           len(user_q) == len(pre_unread) + len(puts))
     if cell is None:
         # undefined cell: nothing observable may happen (raising is fine)
         ob('undefined:wire', len(sends) == 0)
